@@ -1,3 +1,4 @@
+\* GENERATED by checks/c08.py from the constants printed by harness/src/bin/consts.rs -- do not edit
 SPECIFICATION TraceSpec
 CONSTANTS
   CCB = 36
